@@ -4,10 +4,15 @@
 #   suite passes with the patch; demo fails with it and passes without it.
 # Then stores it under /verif/seeded/<Cxx>-<n>/ and runs ./check against /repo with the patch applied.
 set -u
+# SEED_PHASE=confirm : only the confirmation in the scratch worktree (parallel across properties; /repo untouched),
+#                      leaves /tmp/seed-<Cxx>/out/<n>/confirmed
+# SEED_PHASE=check   : only store + run ./check against /repo with the patch applied (serial), requires `confirmed`
 P=$1; N=$2; CRATE=$3; shift 3
+PHASE=${SEED_PHASE:-both}
 WT=/tmp/seed-$P; OUT=$WT/out/$N
 export CARGO_NET_OFFLINE=true CARGO_TARGET_DIR=$WT/target
 cd $WT || exit 2
+if [ "$PHASE" != check ]; then
 git checkout -q -- . && git clean -fdq -e out -e target
 res() { echo "$1"; }
 mkdir -p $CRATE/tests; cp $OUT/demo.rs $CRATE/tests/seed_demo_$N.rs
@@ -19,6 +24,10 @@ cargo test -p $CRATE --offline "$@" >/tmp/seed_${P}_${N}.c 2>&1; C=$?
 git checkout -q -- . && git clean -fdq -e out -e target
 echo "demo without patch rc=$A (want 0); demo with patch rc=$B (want !=0); suite with patch rc=$C (want 0)"
 [ $A -eq 0 ] && [ $B -ne 0 ] && [ $C -eq 0 ] || { echo "NOT CONFIRMED"; exit 1; }
+touch $OUT/confirmed
+fi
+[ "$PHASE" = confirm ] && exit 0
+[ -f $OUT/confirmed ] || { echo "not confirmed yet"; exit 1; }
 D=/verif/seeded/$P-$N; mkdir -p $D
 cp $OUT/patch.diff $D/patch.diff; cp $OUT/demo.rs $D/demo.rs; cp $OUT/notes.txt $D/notes.txt
 cd /verif
